@@ -43,6 +43,9 @@ type callSpec struct {
 	Outs  []int // per output: 0 no correlation id, 1 has its own correlation id
 	Err   int   // 0 nil, 1 listed, 2 unlisted, 3 errors.Wrap(listed), 4 fmt %w (not generated: not demanded, IgnoreErrors documents errors.Cause), 5-7 errors.Wrap/WithMessage/WithStack(unlisted)
 	Panic int   // 0 none, 1 string, 2 error, 3 struct, 4 nil
+	// SetCorr: the handler assigns the incoming message its correlation id during the call, if it has none yet
+	// (SetCorrelationID is documented for "when the message enters the system"): outputs lacking one get THAT id
+	SetCorr bool
 }
 
 type callObs struct {
@@ -69,6 +72,9 @@ func (s *script) handler(msg *message.Message) ([]*message.Message, error) {
 	o.ackedAtEntry, _ = lib.Settled(msg)
 	o.deadline, o.hasDeadline = msg.Context().Deadline()
 	s.obs = append(s.obs, o)
+	if sp.SetCorr {
+		middleware.SetCorrelationID(fmt.Sprintf("assigned-in-call-%d", i), msg)
+	}
 	for k, kind := range sp.Outs {
 		m := message.NewMessage(fmt.Sprintf("c%d-o%d", i, k), []byte("x"))
 		if kind == 1 {
@@ -280,6 +286,7 @@ func genCase(t *rapid.T) caseT {
 		for k := 0; k < no; k++ {
 			sp.Outs = append(sp.Outs, rapid.IntRange(0, 1).Draw(t, "outHasCorrelationID"))
 		}
+		sp.SetCorr = rapid.IntRange(0, 3).Draw(t, "handlerAssignsCorrelationID") == 0
 		switch rapid.IntRange(0, 5).Draw(t, "outcome") {
 		case 0, 1:
 		case 2, 3:
